@@ -57,7 +57,10 @@ class C05Episode(Episode):
                                                  (self.block_stack or [])[:5])),
                       once='blk',
                       spin_in=(self.block_stack or [None])[0],
-                      via=self.spin_site(self.block_stack or []))
+                      via=self.spin_site(self.block_stack or []),
+                      leader_zombie=any(
+                          q.leader_gone
+                          for q in self.world.kernel.procs.values()))
 
     def stopped(self):
         s = self.world.sim
@@ -77,7 +80,10 @@ class C05Episode(Episode):
                                       s.hung['sleeps'], s.hung['blocked'],
                                       pairs),
                       once='hung', spin_in=st[0] if st else None,
-                      via=self.spin_site(st))
+                      via=self.spin_site(st),
+                      leader_zombie=bool(getattr(
+                          self.world.kernel.procs.get(s.hung['pid']),
+                          'leader_gone', False)))
         return super().stopped()
 
     @staticmethod
@@ -260,6 +266,20 @@ class C05(Prop):
                 op['props']['options'] = {
                     rng.choice(['graceful_timeout', 'warmup_delay']):
                     rng.choice(['@nan', '@nan', -1, -0.5])}
+        if rng.random() < 0.05:
+            # a worker whose main thread exits while its other threads go
+            # on: a zombie for /proc and psutil, not yet for waitpid()
+            nw = len(cfg['watchers'])
+            pos = rng.randrange(len(ops) + 1)
+            ops.insert(pos, {'op': 'die', 'w': rng.randrange(nw),
+                             'j': rng.randrange(3), 'how': 'leader',
+                             'place': rng.choice(['now', {'dt': 0.3}])})
+            if rng.random() < 0.5:
+                # ... which end a while later
+                ops.insert(pos + 1, {'op': 'die', 'w': ops[pos]['w'],
+                                     'j': ops[pos]['j'], 'how': 'exit',
+                                     'arg': 0, 'place': {'dt': rng.choice(
+                                         [0.5, 2.0, 8.0])}})
         if rng.random() < 0.15:
             gen.add_on_demand(rng, cfg, ops)
         if rng.random() < 0.3:
